@@ -22,6 +22,10 @@ SHAPES = [()] + [s for r in (1, 2, 3) for s in itertools.product(range(5), repea
 DTYPES = ["<f4", "<f8", "<i4", "<i8", "bool", "object"]
 
 
+class AcceptedButUnusable(Exception):
+    pass
+
+
 def good(shape, dt="<f4"):
     return np.arange(int(np.prod(shape)) if shape else 1, dtype="<f8").reshape(shape).astype(dt)
 
@@ -136,8 +140,14 @@ def run(ctx):
                     tr = ForceTorqueTrack("t", obj[1], good((2, 3)), good((2, 3)))
                 else:
                     tr = ForceTorqueTrack("t", good(obj[0]), good(obj[1]), good(obj[2]))
-                blk = ForceTorque3D(100, tr.nFrames, std("vol"), std("rot"), std("tr"))
-                blk._tracks = [tr]          # bypass the frame-count check: this property is about the track constructor
+                try:
+                    blk = ForceTorque3D(100, tr.nFrames, std("vol"), std("rot"), std("tr"))
+                    blk.add_track(tr)
+                except Exception as e2:
+                    if obj[0] and obj[0] != "nonarray" and obj[0][0] == 0:
+                        blk = None          # zero-frame track: outside the valid domain
+                    else:
+                        raise AcceptedButUnusable(f"{type(e2).__name__}: {e2}")
             elif param == "event":
                 single, n, mk = obj
                 if n == "ni":
@@ -149,9 +159,14 @@ def run(ctx):
                 blk.events = [ev]
             else:
                 blk = build_param(param, obj)
+        except AcceptedButUnusable as e:
+            ctx.fail(f"{param} accepted {desc} but the object cannot be used in a block: {e}", dict(param=param, arg=desc), ident=f"{param} accepted but unusable")
+            continue
         except Exception as e:
             exc = e
         accepted = exc is None
+        if accepted and blk is None:
+            continue
         ctx.case((param, desc), nontrivial=desc.startswith("ndarray") or desc.startswith("coupled"), sample=dict(param=param, arg=desc, accepted=accepted) if accepted or ctx.rng.random() < 0.01 else None,
                  tags=(param.split(".")[0], "accepted" if accepted else "refused"))
         rp = dict(param=param, arg=desc)
